@@ -90,6 +90,28 @@ def run(ctx):
                         dels.setdefault(norm(t.value), []).extend(g.nodes_of(x))
             if isinstance(x, ast.Call) and isinstance(x.func, ast.Attribute) and x.func.attr == "pop" and "_actor_sources" in norm(x.func.value):
                 dels.setdefault("self._actor_sources", []).extend(cfg_node_of(holder, x))
+        # wrapper-aware: a helper called on the child (or on self) whose own body performs the removal counts as it
+        for x in own_nodes(holder.node):
+            if not (isinstance(x, ast.Call) and isinstance(x.func, ast.Attribute) and dotted(x.func.value) in ("actor", "self")):
+                continue
+            try:
+                t = p.method(v, x.func.attr)
+            except Exception:
+                t = None
+            if t is None or t is holder:
+                continue
+            for y in own_nodes(t.node):
+                tgt = None
+                if isinstance(y, ast.Delete):
+                    tgt = next((z.value for z in y.targets if isinstance(z, ast.Subscript)), None)
+                elif isinstance(y, ast.Call) and isinstance(y.func, ast.Attribute) and y.func.attr in ("pop", "clear"):
+                    tgt = y.func.value
+                if tgt is None:
+                    continue
+                if shared._is_registry_expr(t, tgt):
+                    dels.setdefault("registry", []).extend(cfg_node_of(holder, x))
+                elif norm(tgt) in ("self._actors", "self._actor_sources") and dotted(x.func.value) == "self":
+                    dels.setdefault(norm(tgt), []).extend(cfg_node_of(holder, x))
         for cont in ("self._actors", "self._actor_sources", "registry"):
             nodes = dels.get(cont, [])
             ok = bool(nodes) and not any(g.can_reach(s, d, follow_exc=False) for s in stop_nodes for d in nodes) and \
@@ -117,6 +139,8 @@ def run(ctx):
                          "a sendTo/forwardTo delivery is not guarded by 'actor is None -> return'", call)
     # ---- R5 registry hygiene on stop() ---------------------------------------------------
     shared.registry_hygiene(ctx, "R5")
+    # ---- R9 a child leaves the actor map only together with its stop ---------------------------
+    shared.actor_removal_with_stop(ctx, "R9")
     # ---- R6 a re-used send id cancels the previous pending send first ---------------------
     for v in VIEWS:
         d = roles(ctx, v).deliver
